@@ -1937,6 +1937,12 @@ int cms_signed_and_enveloped_data_decipher_from_der(
 	sm3_update(&sm3_ctx, content_info_header, content_info_header_len);
 	sm3_update(&sm3_ctx, content, *content_len);
 
+	// a SignedAndEnvelopedData without any SignerInfo is not signed by anyone
+	if (!signer_infos_len) {
+		error_print();
+		return -1;
+	}
+
 	while (signer_infos_len) {
 		const uint8_t *cert;
 		size_t certlen;
